@@ -327,6 +327,10 @@ func VH_C01_optResult() {
 func VH_C01_bldAny() {
 	N := c01Budget()
 	m := c01NewMon(N)
+	m.prepTok = vPayloadE("prepE") // payloads that implement error are payloads
+	if vNondet[bool]("fallbackPayloadImplementsError") {
+		m.fbTok = &vError{id: 34}
+	}
 	n := NewNode().
 		WithMaxRetries(N).
 		WithPrepFuncAny(func(ctx context.Context, s *SharedStore) (any, error) { return m.prep(s) }).
